@@ -220,6 +220,12 @@ func (e *Env) quant(n *ast.CallExpr, isForall bool, pol bool) string {
 			}
 		}
 		t.idxTerms[sk] = true
+		// the neighbour of a skolem index is what element-shifting code
+		// (append(s[:i], s[i+1:]...), copy) relates it to
+		if t.idxNeighbours == nil {
+			t.idxNeighbours = map[string]bool{}
+		}
+		t.idxNeighbours[t.addIdx(sk, t.mode.intLit64(1, 64))] = true
 		body := e.with(map[string]Val{id.Name: scalar(intT, sk)}).formula(n.Args[3], pol)
 		if isForall {
 			return implies(inRange(sk), body)
@@ -303,6 +309,19 @@ func (t *FnTrans) candidates(lo, hi string) []string {
 	}
 	if len(res) > t.W.maxCands {
 		res = res[:t.W.maxCands]
+	}
+	// second-rank candidates (neighbours of skolem indices): only in the room
+	// that is left, so that they never displace a first-rank candidate
+	var ns []string
+	for k := range t.idxNeighbours {
+		ns = append(ns, k)
+	}
+	sortStrings(ns)
+	for _, k := range ns {
+		if len(res) >= t.W.maxCands+16 {
+			break
+		}
+		add(k)
 	}
 	return res
 }
@@ -883,6 +902,14 @@ func (e *Env) call(n *ast.CallExpr) Val {
 				e.fail("samebase needs slices")
 			}
 			return scalar(bt, and(eq(a.Sub[0].S, b.Sub[0].S), eq(a.Sub[1].S, b.Sub[1].S)))
+		case "disjoint":
+			// disjoint(a, b): two slices live in different backing arrays
+			e.nargs(n, 2)
+			a, b := e.eval(n.Args[0]), e.eval(n.Args[1])
+			if a.K != VSlice || b.K != VSlice {
+				e.fail("disjoint needs slices")
+			}
+			return scalar(bt, not(eq(a.Sub[0].S, b.Sub[0].S)))
 		case "ghost":
 			return e.ghost(n)
 		case "ghostat":
